@@ -216,7 +216,9 @@ HOSTS = ["{}", "abs({})", "max(x, {})", "max({}, x)", "abs(x={})", "max(x, key={
          "round(x, ndigits={})", "x + {}", "{} * x", "x ** {}", "-{}", "x if {} else x", "{} if x else x",
          "x if x else {}", "x < {}", "{} < x < x", "x < x < {}", "x and {}", "{} or x", "({}, x)", "(x, {})",
          "max(x, {}, x)", "abs(abs({}))", "abs(x=abs(x={}))", "max(x, abs(x), key=abs, default={})",
-         "abs(x)({})", "{}(x)", "int(str({}))"]
+         "abs(x)({})", "{}(x)", "int(str({}))",
+         # more positional arguments than the function takes (Python evaluates every argument before it complains about the arity)
+         "abs(x, {})", "round(x, 1, {})", "float(x, {})", "int(x, 10, {})", "str(x, 'u', 's', {})", "bool(x, {})", "abs(x, x, x, {})"]
 ESCAPES = ["().__class__", "().__class__.__bases__[0].__subclasses__()", "__import__('os')",
            "__import__('os').system('true')", "(lambda: 1)()", "(lambda: x)", "[c for c in ().__class__.__mro__]",
            "(y := 1)", "f'{x}'", "open('/etc/passwd')", "x.real", "x[0]", "[x]", "{x: x}", "{x}", "eval('1')",
@@ -456,7 +458,8 @@ def run(ck):
     # (a) another evaluator with user-registered functions was used before; (b) an evaluator has already evaluated something
     n_hist2 = 0
     try:
-        custom = ExpressionEvaluator(allowed_funcs={"len": len, "sorted": sorted, "sum": sum})
+        # user functions, one of them registered under the name of a whitelisted function
+        custom = ExpressionEvaluator(allowed_funcs={"len": len, "sorted": sorted, "sum": sum, "clip": (lambda v: v), "abs": (lambda v: "not-the-builtin")})
         try:
             custom.compile("x + 1", {"x"})(x=1)
         except Exception:  # noqa
@@ -468,7 +471,17 @@ def run(ck):
         used.compile("abs(x) + 1", {"x"})(x=-2)
     except Exception:  # noqa
         pass
-    probes = ["len(x)", "sorted(x)", "sum(x)", "__builtins__(x)", "__builtins__", "float(len(str(x)))", "len", "max(len(x), 1)"]
+    probes = ["len(x)", "sorted(x)", "sum(x)", "__builtins__(x)", "__builtins__", "float(len(str(x)))", "len", "max(len(x), 1)", "clip(x)", "abs(clip(x))"]
+    # ... and the fixed functions keep their meaning in every other evaluator
+    for who, ev in (("fresh-evaluator-after-a-custom-function-evaluator", ExpressionEvaluator()), ("evaluator-that-has-evaluated-before", used)):
+        try:
+            got = ev.compile("abs(x)", {"x"})(x=-3)
+        except Exception as ex:  # noqa
+            got = "raises %s" % type(ex).__name__
+        if got != 3:
+            ck.fail_input("C11:fixed-function-replaced-after-history:%s" % who,
+                          "abs(-3) evaluates to %r in a default evaluator after ANOTHER evaluator was created with allowed_funcs={'abs': <user function>, ...}" % (got,),
+                          {"expr": "abs(x)", "names": ["x"], "kind": "history2", "who": who})
     for who, ev_factory in (("fresh-evaluator-after-a-custom-function-evaluator", lambda: ExpressionEvaluator()),
                             ("evaluator-that-has-evaluated-before", lambda: used)):
         for src_ in probes:
